@@ -27,7 +27,17 @@ MAINT_ASSUME = ["single goroutine; the read buffer is one ring (no contention)",
 RING = dict(engine="ring", scale_quick=2, scale_thorough=40, timeout_quick=600, timeout_thorough=3000)
 MPSC = dict(engine="mpsc", scale_quick=2, scale_thorough=30, timeout_quick=600, timeout_thorough=3000)
 
+HMAP = dict(engine="hmap", scale_quick=1, scale_thorough=12, timeout_quick=900, timeout_thorough=6000)
+
 PROPS = {
+    "C15": dict(engines=[HMAP],
+                rule="hmap engine: (a) 6 sequential cases per unit of scale (size hints 0..3000), 1800-3300 operations each in fill/churn/drain/refill phases over 200-2000 keys with 15% of the keys "
+                     "chosen to collide in one bucket under the table's current seed, Clear included; GOMAXPROCS(1) so that resize copies are sequential and the layout deterministic; every call replayed "
+                     "on the extracted model with the table's own hashes; (b) 12 free-running rounds per unit of scale: 4-11 goroutines incrementing shared counters and inserting/deleting own keys while a reader "
+                     "looks up stable keys and an iterator checks each stable key is yielded exactly once; (c) SWAR kernels on boundary and random words; "
+                     "distinct_nontrivial = distinct (table length, phase) pairs reached",
+                assumptions=["per-table hash seeds (maphash) are inputs read from the implementation", "concurrent behaviour is checked by oracles on free-running executions, not by a theorem",
+                             "resize copies run in one goroutine in the sequential part (GOMAXPROCS(1)); the parallel copy is exercised in the concurrent part only"]),
     "C16": dict(engines=[MPSC],
                 rule="mpsc engine: every (initial, maximum) capacity pair from {2..128} x {4..128}; sequential random pushes/pops crossing every growth step and back, with producers "
                      "parked between the producer-index CAS and the slot store (hook) and pops issued meanwhile; indices/masks/buffer lengths compared with the extracted model after "
